@@ -46,7 +46,8 @@ def run(ctx):
             elif where == "discarding":
                 stream = tok(OPEN, 0) + S(b"Z") + claim(ty, size)              # unknown opentype: everything is discarded
             else:
-                stream = claim(ERROR, r.choice([1000, 1001, 2 ** 40]))
+                ec = r.choice([1000, 1001, 2 ** 40, 2 ** 200])
+                stream = claim(ERROR, ec)
                 size = 1000
             body = bytes(r.randrange(256) for _ in range(min(sent, size)))
             stream += body
@@ -67,6 +68,11 @@ def run(ctx):
                 # the announced body exceeds the limit: it must never be buffered at all (only header bytes may be held)
                 ctx.fail("oracle/rejected-body-buffered", "a body that the taster rejects was buffered: high-water %d bytes; %s limit=%d size=%d"
                          % (hw, where, limit, size), replay=dict(stream=list(stream), chunks=cs, rootmode=mode, highwater=hw))
+            if where == "error" and ec > 1000 and (hw > 65 or not (snaps and snaps[-1]["dead"])):
+                # ERROR is always legal and no schema judges it: SIZE_LIMIT is its only bound, applied when the header is complete
+                ctx.fail("oracle/oversized-error-not-refused-at-header", "an ERROR token announcing %d bytes (> SIZE_LIMIT) was not refused when its header "
+                         "was complete: high-water %d bytes, abandoned=%s" % (ec, hw, bool(snaps and snaps[-1]["dead"])),
+                         replay=dict(stream=list(stream), chunks=cs, rootmode=mode, highwater=hw))
             if hw >= bound:
                 ctx.fail("oracle/buffer-exceeds-bound", "buffer high-water %d >= 65 + max(limit, SIZE_LIMIT) = %d; %s" % (hw, bound, where),
                          replay=dict(stream=list(stream), chunks=cs, rootmode=mode, highwater=hw))
@@ -99,7 +105,12 @@ def real_constraints(ctx, I):
         if d <= 0 or r.random() < 0.35:
             name, c, b = leafs()
             return name, c, b, []
-        k = r.choice(["list", "tuple", "dict", "set"])
+        k = r.choice(["list", "tuple", "dict", "set", "degenerate"])
+        if k == "degenerate":
+            # containers that admit no element at all: whatever is announced inside them is refused unbuffered
+            return r.choice([("TupleOf()", TupleOf(), 0, [b"tuple"]), ("ListOf(bytes,maxLength=0)", ListOf(ByteStringConstraint(5), maxLength=0), 0, [b"list"]),
+                             ("SetOf(bytes,maxLength=0)", SetOf(ByteStringConstraint(5), maxLength=0), 0, [b"set"]),
+                             ("DictOf(bytes,bytes,maxKeys=0)", DictOf(ByteStringConstraint(5), ByteStringConstraint(5), maxKeys=0), 0, [b"dict"])])
         n1, c1, b1, p1 = tree(d - 1)
         if k == "list":
             return "ListOf(%s)" % n1, ListOf(c1, maxLength=r.choice([1, 3])), b1, [b"list"] + p1
@@ -122,7 +133,9 @@ def real_constraints(ctx, I):
         prefix = b""
         for depth, ot in enumerate(path):
             prefix += tok(OPEN, depth) + S(ot)
-        leafkind = name.split("(")[-1].split(",")[0].rstrip(")") if path else name
+        leafkind = (name.split("(")[-1].split(",")[0].rstrip(")") if path else name) or "none"
+        if "maxLength=0" in name or "maxKeys=0" in name or name.endswith("TupleOf()") or "TupleOf()" in name:
+            leafkind = "none"
         if leafkind == "unicode" and r.random() < 0.7:
             prefix += tok(OPEN, len(path)) + S(b"unicode")
         ty = r.choice([STRING, LONGINT, LONGNEG])
